@@ -27,21 +27,12 @@ def lines_of(scripts, op_lines_by_sid, with_store):
         n += 1
         names[n] = sc["id"]
         out.append({"k": "reset", "sid": n, "cfg": sc["init"]})
-        for s, line in zip(steps, ops):
+        for s, ov in zip(steps, ops):
             m = json.loads(s["lab"])
-            st = line["st"]
-            v = planner.view_of_st(st)
-            view = {"phase": v["phase"], "shut": v["shut"], "cfg": v["cfg"], "pipes": v["pipes"],
-                    "jobs": [({"listed": True, "p": j["p"], "ver": j["ver"], "started": j["started"], "completed": j["completed"],
-                               "canceled": j["canceled"], "errored": j["errored"], "lastErr": j["lastErr"],
-                               "tasks": [{"status": t["status"], "errored": t["errored"], "canceled": t["canceled"]} for t in j["tasks"]]}
-                              if j["listed"] else {"listed": False}) for j in v["jobs"]],
-                    "open": v["open"],
-                    "store": [({"present": True, "completed": x["completed"], "canceled": x["canceled"], "started": x["started"], "same": x["same"]}
-                               if x["present"] else {"present": False}) for x in v["store"]],
-                    "logs": v["logs"], "withStore": with_store}
+            view = {k: ov[k] for k in ("phase", "shut", "cfg", "pipes", "jobs", "open", "store", "logs")}
+            view["withStore"] = with_store
             out.append({"k": "op", "sid": n, "op": m["op"], "p": m["p"], "j": m["j"], "t": m["t"], "o": m["o"], "v": m["v"], "bad": m["bad"],
-                        "skip": st["last"]["res"] == "skip", "dbg": False, "res": v["res"], "err": v["err"], "new": v["new"], "view": view})
+                        "skip": ov["skip"], "dbg": False, "res": ov["res"], "err": ov["err"], "new": ov["new"], "view": view})
     return out, names
 
 
